@@ -63,6 +63,12 @@ LeaderChange(id) ==
   /\ LET r == [truth[id] EXCEPT !.term = @ + 1] IN truth' = Put(truth, id, r) /\ Emit({HB(id, r)})
   /\ nT' = nT + 1 /\ UNCHANGED <<used, cache, store, hpc, hh, horg, hdel, best, conc, last, nD, ok>>
 
+(* a deposed leader (one term behind) that has applied the region's latest epoch reports it: newer epoch, older term *)
+DeposedReport(id) ==
+  /\ nT < MaxTruth /\ id \in DOMAIN truth /\ truth[id].term > 1
+  /\ Emit({HB(id, [truth[id] EXCEPT !.term = @ - 1])})
+  /\ nT' = nT + 1 /\ UNCHANGED <<truth, used, cache, store, hpc, hh, horg, hdel, best, conc, last, nD, ok>>
+
 ----------------------------------------------------------------------------
 (* PD side *)
 Origin(c, h) == IF h.id \in DOMAIN c THEN c[h.id] ELSE None
@@ -119,10 +125,19 @@ Next == \/ \E id \in Ids, k \in 1..(Inf - 1), new \in Ids : Split(id, k, new)
         \/ \E a, b \in Ids : Merge(a, b)
         \/ \E id \in Ids : ConfChange(id)
         \/ \E id \in Ids : LeaderChange(id)
+        \/ \E id \in Ids : DeposedReport(id)
         \/ \E p \in Handlers, h \in (IF EnumHB THEN HBs ELSE bag) : PreCheck(p, h)
         \/ \E p \in Handlers : Commit(p)
         \/ \E p \in Handlers : StoreOps(p)
 Spec == Init /\ [][Next]_vars
+(* the same system without splits and merges: simulation then concentrates on epochs and terms of one region *)
+NextTerms == \/ \E id \in Ids : ConfChange(id)
+             \/ \E id \in Ids : LeaderChange(id)
+             \/ \E id \in Ids : DeposedReport(id)
+             \/ \E p \in Handlers, h \in (IF EnumHB THEN HBs ELSE bag) : PreCheck(p, h)
+             \/ \E p \in Handlers : Commit(p)
+             \/ \E p \in Handlers : StoreOps(p)
+SpecTerms == Init /\ [][NextTerms]_vars
 
 ----------------------------------------------------------------------------
 NoOverlap == \A a, b \in DOMAIN cache : a # b => ~Overl(cache[a], cache[b])
